@@ -1,7 +1,7 @@
 \* EXPECTED VIOLATION Converges: the only honest peer's dial fails once, it is removed from the peerstore and never comes back
 CONSTANTS HA = 2 HB = 0 ForkAt = 0 Start = 0 MaxIter = 0 WithCancel = FALSE
   Peers = {"flaky", "corrupt"}
-  Verify = TRUE Retry = TRUE CheckedStore = TRUE CtxAwareSends = TRUE
+  Verify = TRUE Retry = TRUE CheckedStore = TRUE CtxAwareSends = TRUE FieldsChecked = TRUE
   ClassOf <- MCIdentity EmptyA <- MCEmptyMix EmptyB <- MCNoEmpty
 SPECIFICATION LiveSpec
 VIEW view
